@@ -27,7 +27,7 @@ Definition show_flabel (l : flabel) : string :=
 
 (* the directory: every file with its datasets, as "<variant bits>k<call><ext>=ds.ds" *)
 Definition show_file (e : path * list ds) : string :=
-  show_path (fst e) ++ "/" ++ join "" (map sb (snd (fst (fst e)))) ++ "=" ++ join "." (map show_ds (snd e)).
+  show_path (fst e) ++ "/" ++ join "" (map (fun o => match o with Some _ => "1" | None => "0" end) (snd (fst (fst e)))) ++ "=" ++ join "." (map show_ds (snd e)).
 
 Definition show_ffinal (c : fcfg) (s : fstateX) : string :=
   let b := fbase s in
